@@ -73,11 +73,43 @@ def gen(tier, rng):
                 add(api="deflate_stateless_multi", inp=inp, level=level, wrap=0, lbuf=lb, prefill=lb % 3, calls=[[n // 2, n + 600, 2, 0], [n, n + 600, 0, 1]], meta={"family": "unaligned-level-buffer"})
     return scns
 
+def pending_marker_family(tier, rng, wd, first):
+    """(i) A FULL_FLUSH whose marker is left in the library's staging buffer (the first call's output ends inside or just before the
+    00 00 FF FF marker), completed by a call that keeps FULL_FLUSH and brings more input - a copy of the data before the flush point, short
+    or longer than the internal buffer.  The first call's compressed size is learnt from a probe run of the library, then avail_out is
+    swept over the 15 values around it."""
+    probes, combos = [], []
+    for n in ([300, 3000] if tier == "quick" else [300, 3000, 20000]):
+        seg = [rng.choice(b"abcdefgh") for _ in range(n)]
+        for level in range(4):
+            wrap, lbuf, mem = [0, 1, 3][(level + n) % 3], [3, 0][(level + n // 100) % 2], (level + n) % 3
+            probes.append(igz.scenario(scn=len(probes), api="deflate", inp=seg, level=level, wrap=wrap, lbuf=lbuf, mem=mem, calls=[[n, 1 << 17, 2, 0], [0, 1 << 17, 0, 1]], meta={"family": "probe"}))
+            combos.append((seg, level, wrap, lbuf, mem))
+    recs, summ, by = igz.merge(probes, igz.run_harness(probes, wd, "c14probe"))
+    out = []
+    for pr, (seg, level, wrap, lbuf, mem) in zip(probes, combos):
+        cl = by[pr["scn"]]["calls"]
+        if not cl: continue
+        n, c1 = len(seg), cl[0]["p"]
+        for s2 in ([n, 70000] if tier == "quick" else [n, 70000, 200000]):
+            tail = (seg * (s2 // n + 1))[:s2]
+            # (and, further back, sizes that leave the end of the block itself pending: level 0 commits to the marker as soon as it
+            #  enters its finish routine)
+            far = [a for a in range(c1 - 330, c1 - 13, 7) if a >= 1 and s2 > n and (level == 0 or tier == "thorough")]
+            for ao in far + list(range(max(1, c1 - 13), c1 + 2)):
+                if s2 > n and tier == "quick" and not (ao <= c1 - 1 and (ao >= c1 - 10 or ao in far)): continue
+                for variant in range(3 if s2 == n else 1):
+                    calls = [[n, ao, 2, 0]] + ([[s2, 1 << 20, 2, 1]] if variant == 0 else [[s2, 1 << 20, 2, 0], [0, 1 << 17, 0, 1]] if variant == 1 else [[0, 3, 2, 0], [s2, 1 << 20, 2, 0], [0, 1 << 17, 0, 1]])
+                    out.append(igz.scenario(scn=first + len(out), api="deflate", inp=seg + tail, level=level, wrap=wrap, lbuf=lbuf, mem=mem, calls=calls, tail_ao=1 << 17,
+                                            meta={"family": "full-flush-marker-staged-then-more-input", "cls": "copy"}))
+    return out
+
 def run(tier, replay=None):
     v = Verdict("C14", tier)
     rng = random.Random(seed() * 40692 % (1 << 31) + 14)
     wd = workdir("c14")
     scns = [json.load(open(replay))["replay"]["scenario"]] if replay else gen(tier, rng)
+    if not replay: scns += pending_marker_family(tier, rng, wd, len(scns))
     tf = igz.run_harness(scns, wd, "c14")
     recs, summ, by = igz.merge(scns, tf)
     # appended one-shot outputs
